@@ -226,8 +226,22 @@ theorem bal_comp (p : Nat → Bool) : (gs : List Comp) → ∀ d rest,
     afterClose (d + 1) (toks (unparseComp p gs) ++ rest) = afterClose (d + 1) rest
   | [], d, rest => by simp [unparseComp]
   | .mk t it ifs isAsync :: gs, d, rest => by
+    -- the target is written by `unparseTarget` (PV.C11.Model): a non-empty tuple bare, anything else by `unparse`
+    have ht : ∀ d rest, afterClose (d + 1) (toks (unparseTarget p t) ++ rest) = afterClose (d + 1) rest := by
+      intro d rest
+      have h0 := bal_unparse p t Prec.EXPR d rest
+      cases t with
+      | tuple es =>
+        have hs := bal_seq p es
+        cases es with
+        | nil => simpa [unparseTarget] using h0
+        | cons x xs =>
+          simp [unparseTarget, hs]
+          split <;> simp [afterClose, op]
+      | _ => simpa [unparseTarget] using h0
+    rw [unparseComp_cons]
     cases isAsync <;>
-      simp [unparseComp, bal_unparse p t, bal_unparse p it, bal_ifs p ifs, bal_comp p gs, kw]
+      simp [ht, bal_unparse p it, bal_ifs p ifs, bal_comp p gs, kw]
 theorem bal_ifs (p : Nat → Bool) : (cs : List Expr) → ∀ d rest,
     afterClose (d + 1) (toks (unparseIfs p cs) ++ rest) = afterClose (d + 1) rest
   | [], d, rest => by simp [unparseIfs]
